@@ -155,6 +155,11 @@ Definition detached (g : graph) (D K : list Z) (x : Z) : Prop :=
   ~ In x D /\ attached g D x /\ forall y, reach_av g D x y -> ~ In y K.
 Definition deleted_spec (g : graph) (D K : list Z) (x : Z) : Prop := In x D \/ detached g D K x.
 
+(* renumbering of the structure by s: what Graph.remap does to _bonds, and to a match into the structure *)
+Definition rename_graph (s : Z -> Z) (g : graph) : graph := map (fun vl => (s (fst vl), map s (snd vl))) g.
+Definition rename_match (s : Z -> Z) (mapping : list (Z * Z)) : list (Z * Z) := map (fun kv => (fst kv, s (snd kv))) mapping.
+
+
 (* symmetric adjacency (implies: every neighbour has an adjacency entry) *)
 Definition sym_graph (g : graph) : bool :=
   forallb (fun vl => forallb (fun b => zmem (fst vl) (gnbrs g b)) (snd vl)) g.
@@ -325,6 +330,26 @@ Definition fix_mapping_overlap (structures : list (list Z)) : pyres (list (list 
          end
   end.
 
+(* ====================================================================================================
+   reactor.py: Reactor._single_stage, the number-collision remapping of one patched product against the molecules that
+   take no part in the reaction (`ignored` = the set of their atom numbers):
+       max_ignored_number = max(ignored, default=0)
+       collision = set(new).intersection(ignored)
+       if collision: new.remap(dict(zip(collision, count(max(max_ignored_number, max(new)) + 1))))
+   new = list(new) (atom numbers of the product in dict order).  The iteration order of the set `collision` is not
+   modelled: colliding atoms are renumbered in dict order, results are compared as sets.
+   ==================================================================================================== *)
+Definition zmax0 (l : list Z) : Z := match zmax_list l with Some m => m | None => 0 end.     (* max(l, default=0) *)
+Definition stage_remap (new ignored : list Z) : pyres (list Z) :=
+  match zinter new ignored with
+  | [] => Ok new
+  | collision => match zmax_list new with
+                 | Some b => Ok (remap_ids (zip_count collision (Z.max (zmax0 ignored) b + 1)) new)
+                 | None => Err ValueError
+                 end
+  end.
+
+
 (* ---------- vocabulary of the theorems about _patcher and fix_mapping_overlap (proofs/ReactorProofs.v, props/C16.v) ---------- *)
 Definition adjT := list (Z * list (Z * bond)).
 Definition get2 (adj : adjT) (x y : Z) : option bond := zget (match zget adj x with Some l => l | None => [] end) y.
@@ -385,3 +410,5 @@ Definition gd_case_eqb (g : graph) (mapping : list (Z * Z)) (to_del : list Z) (i
 (* fix_mapping_overlap: same numbers where nothing was renumbered, same SET of numbers per structure *)
 Definition overlap_res_eqb (model impl : pyres (list (list Z))) : bool :=
   pyres_eqb (list_eqb (fun a b => list_eqb Z.eqb (zsort a) (zsort b))) model impl.
+(* Reactor._single_stage: the numbers of one stage's products (after the collision remap) as a set *)
+Definition stage_res_eqb (model impl : pyres (list Z)) : bool := pyres_eqb (list_eqb Z.eqb) (sorted_res model) impl.
